@@ -168,6 +168,21 @@ func (p *Parser) parseUnaryExpr() (Expression, error) {
 				return nil, err
 			}
 			return &NotExpr{Pos: pos, Right: x}, nil
+		case "-":
+			// A sign directly in front of a number literal, as the folded
+			// constants are printed: -1, -2.5
+			if p.pos < p.numToks {
+				nt := p.toks[p.pos]
+				if (nt.Tp == NUMBER || nt.Tp == FLOAT) && nt.Pos == p.tok.Pos+1 {
+					pos := p.tok.Pos
+					p.next()
+					p.next()
+					if nt.Tp == NUMBER {
+						return newNumberExpr(pos, "-"+nt.Data), nil
+					}
+					return newFloatExpr(pos, "-"+nt.Data), nil
+				}
+			}
 		}
 	}
 	return p.parsePrimaryExpr(nil)
